@@ -325,6 +325,13 @@ int sim_arena_create(uint32_t num_buffers, size_t initial_buffer_size, YR_ARENA*
 
 }  // extern "C"
 
+volatile uint64_t g_bb_count = 0;
+void (*g_bb_hook)(const void* pc) = 0;
+extern "C" __attribute__((no_sanitize("address", "undefined"))) void __sanitizer_cov_trace_pc() {
+  g_bb_count = g_bb_count + 1;
+  if (g_bb_hook) g_bb_hook(__builtin_return_address(0));
+}
+
 void sim_clock_reset() { g_clock = SimClock(); }
 void sim_fs_reset() { g_fs = SimFs(); }
 
